@@ -25,7 +25,7 @@ use rules::fixture::{wl, Rt};
 use std::collections::{BTreeMap, BTreeSet, HashSet};
 use std::sync::Mutex;
 use warp_core::{
-    CheckpointRef, CursorId, CursorRole, PlaybackCursor, PlaybackMode, ProvenanceService,
+    CheckpointRef, CursorId, Engine, CursorRole, PlaybackCursor, PlaybackMode, ProvenanceService,
     ProvenanceStore, ReplayCheckpoint, SeekError, SeekThen, StepResult, WorldlineId,
     WorldlineState, WorldlineTick,
 };
@@ -347,6 +347,47 @@ fn tx_counter_of(d: &str) -> Option<u64> {
     rest[..end].parse().ok()
 }
 
+/// Field-by-field comparison of two worldline states through the public API (fast path; the
+/// full `Debug` comparison is kept for references, live states and one state per tick per search).
+/// Covers every field of `WorldlineState` except the process-local ingress ledger:
+/// root, warp_state and initial_state (real `diff_state` must be empty both ways), state root,
+/// tick_history, last_snapshot, last_materialization(+errors), tx counter (via
+/// `Engine::snapshot_for_state(..).tx`).
+fn same_state(engine: &Engine, a: &WorldlineState, b: &WorldlineState, with_mat: bool) -> Option<&'static str> {
+    use warp_core::verif_hooks::tick_patch::diff_state;
+    if a.root() != b.root() {
+        return Some("root");
+    }
+    if a.state_root() != b.state_root() {
+        return Some("state_root");
+    }
+    if !diff_state(a.warp_state(), b.warp_state()).is_empty() || !diff_state(b.warp_state(), a.warp_state()).is_empty() {
+        return Some("warp_state");
+    }
+    if !diff_state(a.initial_state(), b.initial_state()).is_empty() || !diff_state(b.initial_state(), a.initial_state()).is_empty() {
+        return Some("initial_state");
+    }
+    if a.tick_history() != b.tick_history() {
+        return Some("tick_history");
+    }
+    if a.last_snapshot() != b.last_snapshot() {
+        return Some("last_snapshot");
+    }
+    if engine.snapshot_for_state(a).tx != engine.snapshot_for_state(b).tx {
+        return Some("tx_counter");
+    }
+    if with_mat {
+        let (x, y) = (a.last_materialization(), b.last_materialization());
+        if x.len() != y.len() || x.iter().zip(y).any(|(p, q)| p.channel != q.channel || p.data != q.data) {
+            return Some("last_materialization");
+        }
+    }
+    if a.last_materialization_errors().len() != b.last_materialization_errors().len() {
+        return Some("last_materialization_errors");
+    }
+    None
+}
+
 // ---------------------------------------------------------------------------------------------
 // Per-history analysis
 // ---------------------------------------------------------------------------------------------
@@ -422,6 +463,8 @@ fn cursor_search(
     n: u64,
     ckpts: &BTreeSet<u64>,
     refs: &[String],
+    refs_s: &[WorldlineState],
+    engine: &Engine,
     roots: &[[u8; 32]],
     depth: usize,
     full_menu: bool,
@@ -438,19 +481,21 @@ fn cursor_search(
             wt(pin),
         )
     };
-    let mut seen: HashSet<[u8; 32]> = HashSet::new();
+    // Cursor state key = (tick, mode, state equal to the reference for that tick).  The private
+    // `replay_base_validated` flag is not part of the key: with a valid replay base (always the
+    // case here) it only decides whether the base is re-hashed, never the outcome.
+    let mut seen: HashSet<(u64, String)> = HashSet::new();
+    let mut full_checked: BTreeSet<u64> = BTreeSet::new();
     // the initial state
     {
         let c = fresh();
-        let d = format!("{c:?}");
-        seen.insert(mc::h(d.as_bytes()));
+        seen.insert((0, format!("{:?}", c.mode)));
         out.states += 1;
-        match state_slice_of_cursor_debug(&d) {
-            Some(s) if canon_str(s) == refs[0] => {}
-            _ => out.violations.push((
+        if same_state(engine, c.materialized_state(), &refs_s[0], true).is_some() {
+            out.violations.push((
                 format!("c07:{}:fresh-cursor-state-differs-from-U0-replay", ctx.site_class()),
                 json!({"case": ctx.case(&[])}),
-            )),
+            ));
         }
     }
     let mut frontier: Vec<Vec<CurOp>> = vec![Vec::new()];
@@ -532,21 +577,22 @@ fn cursor_search(
                 }
                 // (b) materialised state == checkpoint-free replay at the cursor's tick
                 let t = c.current_tick().as_u64() as usize;
-                let d = format!("{c:?}");
-                let key = mc::h(d.as_bytes());
-                let ok_state = match state_slice_of_cursor_debug(&d) {
-                    Some(s) => canon_str(s) == refs[t],
-                    None => {
-                        out.machinery.push("cursor Debug layout changed".into());
-                        true
-                    }
-                };
-                if !ok_state {
+                let key = (t as u64, format!("{:?}", c.mode));
+                if let Some(field) = same_state(engine, c.materialized_state(), &refs_s[t], true) {
                     let how = seek_class(seek, ckpts);
                     out.violations.push((
-                        format!("c07:{}:materialized_state differs from checkpoint-free replay:{how}", ctx.site_class()),
-                        json!({"case": ctx.case(&full), "tick": t}),
+                        format!("c07:{}:materialized_state differs from checkpoint-free replay:{field}:{how}", ctx.site_class()),
+                        json!({"case": ctx.case(&full), "tick": t, "field": field}),
                     ));
+                } else if full.len() == depth && full_menu && full_checked.insert(t as u64) {
+                    // full Debug fingerprint, once per tick per search, at the deepest level
+                    out.c("full_debug_state_comparisons", 1);
+                    if canon(c.materialized_state()) != refs[t] {
+                        out.violations.push((
+                            format!("c07:{}:materialized_state Debug differs from checkpoint-free replay", ctx.site_class()),
+                            json!({"case": ctx.case(&full), "tick": t}),
+                        ));
+                    }
                 }
                 if c.materialized_state().current_tick().as_u64() != t as u64 {
                     out.violations.push((
@@ -636,6 +682,7 @@ fn analyze(h: &History, cfg: Cfg) -> Out {
     let w = wl(1);
     let n = (h.live.len() - 1) as u64;
     let base = &h.live[0];
+    let engine = rules::fixture::fresh_engine(warp_core::SchedulerKind::Radix, 1);
     let roots: Vec<[u8; 32]> = h.live.iter().map(|s| s.state_root()).collect();
     let real = h.rt.provenance.clone();
     let deco = match decorate(&h.rt) {
@@ -647,6 +694,7 @@ fn analyze(h: &History, cfg: Cfg) -> Out {
     };
 
     for (variant, p0) in [("real", &real), ("rerecorded", &deco)] {
+        let real_variant = variant == "real";
         // ---- references: checkpoint-free replay from U0 -------------------------------------
         let refs_s = match replay_all(p0, w, base, n) {
             Ok(v) => v,
@@ -663,17 +711,18 @@ fn analyze(h: &History, cfg: Cfg) -> Out {
         // replay with the frontier state as the base handle must agree (only U0 is used)
         for t in 0..=n {
             match p0.replay_worldline_state_at(w, &h.live[n as usize], wt(t)) {
-                Ok(s) if canon(&s) == refs[t as usize] => {}
+                Ok(s) if same_state(&engine, &s, &refs_s[t as usize], true).is_none() => {}
                 other => out.violations.push((
                     "c07:replay_at:replay depends on which state handle carries U0".into(),
                     json!({"case": {"history": hs, "variant": variant, "tick": t}, "err": other.err().map(|e| format!("{e:?}"))}),
                 )),
             }
         }
-        // reference vs live runtime at t
+        // reference vs live runtime at t: full Debug (minus ingress ledger; minus
+        // last_materialization for the re-recorded variant, which the live runtime never had)
         for t in 0..=n as usize {
             let live = &h.live[t];
-            let (l, r) = if variant == "real" {
+            let (l, r) = if real_variant {
                 (canon(live), refs[t].clone())
             } else {
                 (canon_no_mat(live), canon_no_mat(&refs_s[t]))
@@ -683,27 +732,22 @@ fn analyze(h: &History, cfg: Cfg) -> Out {
                     "c07:replay_at:replayed state root differs from live frontier root".into(),
                     json!({"case": {"history": hs, "variant": variant, "tick": t}}),
                 ));
-            } else if format!("{:?}", refs_s[t].warp_state()) != format!("{:?}", live.warp_state()) {
-                out.violations.push((
-                    "c07:replay_at:replayed WarpState differs from live frontier WarpState".into(),
-                    json!({"case": {"history": hs, "variant": variant, "tick": t}}),
-                ));
             } else if l != r {
-                let what = if format!("{:?}", refs_s[t].tick_history()) != format!("{:?}", live.tick_history()) {
-                    "tick_history"
-                } else if refs_s[t].last_snapshot() != live.last_snapshot() {
-                    "last_snapshot"
-                } else if tx_counter_of(&l) != tx_counter_of(&r) {
-                    "tx_counter"
-                } else {
-                    "metadata"
-                };
+                let what = same_state(&engine, &refs_s[t], live, real_variant).unwrap_or("metadata");
                 out.violations.push((
                     format!("c07:replay_at:replayed {what} differs from what the live runtime held"),
                     json!({"case": {"history": hs, "variant": variant, "tick": t}}),
                 ));
+            } else if let Some(f) = same_state(&engine, &refs_s[t], live, real_variant) {
+                out.machinery.push(format!("field-wise comparison reports {f} although Debug is equal ({hs} t={t})"));
             }
-            if variant == "rerecorded" && t > 0 {
+            if tx_counter_of(&r) != Some(t as u64) {
+                out.violations.push((
+                    "c07:replay_at:replayed tx counter is not the tick".into(),
+                    json!({"case": {"history": hs, "variant": variant, "tick": t}, "got": tx_counter_of(&r)}),
+                ));
+            }
+            if !real_variant && t > 0 {
                 let want = outputs_for(p0.entry(w, wt(t as u64 - 1)).map(|e| e.commit_global_tick.as_u64()).unwrap_or(0));
                 let got: Vec<(_, Vec<u8>)> = refs_s[t]
                     .last_materialization()
@@ -723,7 +767,7 @@ fn analyze(h: &History, cfg: Cfg) -> Out {
         }
 
         // checkpoint-free forks: reference for children (and they must equal the parent's prefix)
-        let mut child_refs: Vec<Vec<String>> = Vec::new();
+        let mut child_refs: Vec<Option<Vec<WorldlineState>>> = Vec::new();
         for f in 0..n {
             let mut pf = p0.clone();
             let child = wl(0x70 + f as u8);
@@ -732,34 +776,33 @@ fn analyze(h: &History, cfg: Cfg) -> Out {
                     "c07:fork-child:fork at an in-range tick rejected".into(),
                     json!({"case": {"history": hs, "variant": variant, "fork": f}, "error": format!("{e:?}")}),
                 ));
-                child_refs.push(Vec::new());
+                child_refs.push(None);
                 continue;
             }
             match replay_all(&pf, child, base, f + 1) {
                 Ok(v) => {
-                    let cr: Vec<String> = v.iter().map(canon).collect();
                     for t in 0..=(f + 1) as usize {
-                        if cr[t] != refs[t] {
+                        if canon(&v[t]) != refs[t] {
                             out.violations.push((
                                 "c07:fork-child:checkpoint-free replay of the child differs from the parent's prefix".into(),
                                 json!({"case": {"history": hs, "variant": variant, "fork": f, "tick": t}}),
                             ));
                         }
                     }
-                    child_refs.push(cr);
+                    child_refs.push(Some(v));
                 }
                 Err(e) => {
                     out.violations.push((
                         "c07:fork-child:checkpoint-free replay of the child fails".into(),
                         json!({"case": {"history": hs, "variant": variant, "fork": f}, "error": e}),
                     ));
-                    child_refs.push(Vec::new());
+                    child_refs.push(None);
                 }
             }
         }
 
         // diverged-child references (mask 0) are filled on first use
-        let mut div_refs: BTreeMap<u64, Vec<String>> = BTreeMap::new();
+        let mut div_refs: BTreeMap<u64, Vec<WorldlineState>> = BTreeMap::new();
 
         // ---- every subset of checkpoint ticks ------------------------------------------------
         for mask in 0u32..(1u32 << (n + 1)) {
@@ -772,7 +815,7 @@ fn analyze(h: &History, cfg: Cfg) -> Out {
             let mut pc = p0.clone();
             let mut ok = true;
             for &t in &ckpts {
-                let r = if variant == "real" {
+                let r = if real_variant {
                     pc.checkpoint(w, &h.live[t as usize]).map(|_| ())
                 } else {
                     pc.add_checkpoint(
@@ -805,22 +848,31 @@ fn analyze(h: &History, cfg: Cfg) -> Out {
                 out.c("checkpoint_subsets_with_interior_checkpoint", 1);
             }
 
-            // (i) the worldline itself
+            // (i) the worldline itself: full menu on the real variant, reduced on the re-recorded
             let ctx = Ctx { hist: &hs, variant, site: "cursor".into(), mask };
-            cursor_search(&mut out, &ctx, &pc, w, base, n, &ckpts, &refs, &roots, cfg.depth, true, n + 1);
+            cursor_search(
+                &mut out, &ctx, &pc, w, base, n, &ckpts, &refs, &refs_s, &engine, &roots,
+                cfg.depth, real_variant, n + 1,
+            );
             // replay_worldline_state_at with checkpoints, every target
             for t in 0..=n {
                 out.evals += 1;
                 match pc.replay_worldline_state_at(w, base, wt(t)) {
-                    Ok(s) if canon(&s) == refs[t as usize] => {}
-                    Ok(_) => out.violations.push((
-                        "c07:replay_at:replay through checkpoints differs from checkpoint-free replay".into(),
-                        json!({"case": {"history": hs, "variant": variant, "checkpoint_mask": mask, "tick": t}}),
-                    )),
-                    Err(e) => out.violations.push((
-                        "c07:replay_at:replay through checkpoints fails".into(),
-                        json!({"case": {"history": hs, "variant": variant, "checkpoint_mask": mask, "tick": t}, "error": format!("{e:?}")}),
-                    )),
+                    Ok(s) => {
+                        if let Some(field) = same_state(&engine, &s, &refs_s[t as usize], true) {
+                            out.violations.push((
+                                format!("c07:replay_at:replay through checkpoints differs from checkpoint-free replay:{field}"),
+                                json!({"case": {"history": hs, "variant": variant, "checkpoint_mask": mask, "tick": t}}),
+                            ));
+                        }
+                    }
+                    Err(e) => {
+                        let d = format!("{e:?}");
+                        out.violations.push((
+                            format!("c07:replay_at:replay through checkpoints fails:{}", d.split(|c| c == ' ' || c == '(' || c == '{').next().unwrap_or("")),
+                            json!({"case": {"history": hs, "variant": variant, "checkpoint_mask": mask, "tick": t}, "error": d}),
+                        ));
+                    }
                 }
             }
             match pc.replay_worldline_state_at(w, base, wt(n + 1)) {
@@ -835,9 +887,7 @@ fn analyze(h: &History, cfg: Cfg) -> Out {
 
             // (ii) store-level forks at every tick
             for f in 0..n {
-                if child_refs[f as usize].is_empty() {
-                    continue;
-                }
+                let Some(cref) = &child_refs[f as usize] else { continue };
                 let child = wl(0x70 + f as u8);
                 let mut pf = pc.clone();
                 if let Err(e) = pf.fork(w, wt(f), child) {
@@ -869,11 +919,12 @@ fn analyze(h: &History, cfg: Cfg) -> Out {
                 }
                 let ctx = Ctx { hist: &hs, variant, site: format!("fork-child@{f}"), mask };
                 cursor_search(
-                    &mut out, &ctx, &pf, child, base, f + 1, &want, &child_refs[f as usize],
+                    &mut out, &ctx, &pf, child, base, f + 1, &want, &refs, cref, &engine,
                     &roots, cfg.fork_depth, false, f + 1,
                 );
                 // the source worldline is untouched by the fork
-                if format!("{:?}", ProvenanceStore::entry(&pf, w, wt(n - 1))) != format!("{:?}", ProvenanceStore::entry(&pc, w, wt(n - 1)))
+                if ProvenanceStore::entry(&pf, w, wt(n - 1)) != ProvenanceStore::entry(&pc, w, wt(n - 1))
+                    || ProvenanceStore::len(&pf, w).ok() != Some(n)
                     || checkpoint_ticks(&pf, w) != ckpts
                 {
                     out.violations.push((
@@ -882,12 +933,23 @@ fn analyze(h: &History, cfg: Cfg) -> Out {
                     ));
                 }
             }
+            // out-of-range fork tick is a typed error
+            {
+                let mut pf = pc.clone();
+                match pf.fork(w, wt(n), wl(0x7f)) {
+                    Err(warp_core::HistoryError::HistoryUnavailable { .. }) => out.o("typed_error:fork:HistoryUnavailable"),
+                    other => out.violations.push((
+                        "c07:fork-child:fork beyond the tip not rejected with HistoryUnavailable".into(),
+                        json!({"case": {"history": hs, "variant": variant, "checkpoint_mask": mask}, "got": format!("{other:?}")}),
+                    )),
+                }
+            }
 
             // (iii) real strand fork + one diverging commit on the child (real variant only:
             //       the runtime appends to its own provenance)
-            if variant == "real" {
+            if real_variant {
                 for f in 0..n {
-                    diverge(&mut out, h, &hs, mask, &ckpts, f, &refs, &mut div_refs);
+                    diverge(&mut out, &engine, h, &hs, mask, &ckpts, f, &refs_s, &mut div_refs);
                 }
             }
         }
@@ -907,13 +969,14 @@ fn analyze(h: &History, cfg: Cfg) -> Out {
 #[allow(clippy::too_many_arguments)]
 fn diverge(
     out: &mut Out,
+    engine: &Engine,
     h: &History,
     hs: &str,
     mask: u32,
     ckpts: &BTreeSet<u64>,
     f: u64,
-    parent_refs: &[String],
-    div_refs: &mut BTreeMap<u64, Vec<String>>,
+    parent_refs: &[WorldlineState],
+    div_refs: &mut BTreeMap<u64, Vec<WorldlineState>>,
 ) {
     let w = wl(1);
     let child = wl(9);
@@ -926,17 +989,18 @@ fn diverge(
         }
     }
     if let Err(e) = fork(&mut rt, w, f, child) {
+        let d = format!("{e:?}");
         out.violations.push((
-            "c07:diverged-child:fork_strand at an in-range tick fails".into(),
-            case(json!(format!("{e:?}"))),
+            format!("c07:diverged-child:fork_strand at an in-range tick fails:{}", d.split(|c| c == ' ' || c == '(' || c == '{').next().unwrap_or("")),
+            case(json!(d)),
         ));
         return;
     }
     out.c("strand_forks", 1);
     let child_live_fork = frontier(&rt, child);
-    if canon(&child_live_fork) != parent_refs[(f + 1) as usize] {
+    if let Some(field) = same_state(engine, &child_live_fork, &parent_refs[(f + 1) as usize], true) {
         out.violations.push((
-            "c07:diverged-child:child frontier after fork_strand differs from checkpoint-free replay of the parent prefix".into(),
+            format!("c07:diverged-child:child frontier after fork_strand differs from checkpoint-free replay of the parent prefix:{field}"),
             case(json!({"tick": f + 1})),
         ));
     }
@@ -946,17 +1010,17 @@ fn diverge(
         return;
     }
     match tick(&mut rt) {
-        Ok(recs) if recs.len() == 1 => {}
+        Ok(recs) if recs.len() == 1 && len(&rt, child) == f + 2 => {}
         other => {
-            out.machinery.push(format!("diverging tick did not commit exactly one head ({hs} f={f}): {other:?}"));
+            // a child frontier materialised from replay must be a usable frontier
+            out.violations.push((
+                "c07:diverged-child:commit on a freshly forked child does not succeed".into(),
+                case(json!(format!("{other:?}").chars().take(300).collect::<String>())),
+            ));
             return;
         }
     }
     let n2 = f + 2;
-    if len(&rt, child) != n2 {
-        out.machinery.push(format!("child length {} != {n2}", len(&rt, child)));
-        return;
-    }
     let child_live = frontier(&rt, child);
     let got_ck = checkpoint_ticks(&rt.provenance, child);
     let want_ck: BTreeSet<u64> = ckpts.iter().copied().filter(|c| *c <= f + 1).collect();
@@ -970,25 +1034,24 @@ fn diverge(
     if mask == 0 {
         match replay_all(&rt.provenance, child, base, n2) {
             Ok(v) => {
-                let r: Vec<String> = v.iter().map(canon).collect();
                 for t in 0..=(f + 1) as usize {
-                    if r[t] != parent_refs[t] {
+                    if same_state(engine, &v[t], &parent_refs[t], true).is_some() {
                         out.violations.push((
                             "c07:diverged-child:child prefix replay differs from parent replay".into(),
                             case(json!({"tick": t})),
                         ));
                     }
                 }
-                if n2 <= (h.live.len() - 1) as u64 && r[n2 as usize] == parent_refs[n2 as usize] {
+                if (n2 as usize) < h.live.len() && v[n2 as usize].state_root() == parent_refs[n2 as usize].state_root() {
                     out.machinery.push(format!("diverging commit did not diverge ({hs} f={f})"));
                 }
-                if r[n2 as usize] != canon(&child_live) {
+                if canon(&v[n2 as usize]) != canon(&child_live) {
                     out.violations.push((
                         "c07:diverged-child:replay of the diverged tick differs from the live child frontier".into(),
                         case(json!({"tick": n2})),
                     ));
                 }
-                div_refs.insert(f, r);
+                div_refs.insert(f, v);
             }
             Err(e) => {
                 out.violations.push((
@@ -1019,18 +1082,18 @@ fn diverge(
             for (i, t) in [a, b].into_iter().enumerate() {
                 match c.seek_to(wt(t), &rt.provenance, base) {
                     Ok(()) => {
-                        if canon(c.materialized_state()) != refs[t as usize] {
-                            bad = Some(format!("state differs after seek #{i} to {t}"));
+                        if let Some(field) = same_state(engine, c.materialized_state(), &refs[t as usize], true) {
+                            bad = Some(format!("state:{field} after seek #{i} to {t}"));
                             break;
                         }
                         if t == n2 && c.current_state_root() != live_root {
-                            bad = Some("root differs from live child".into());
+                            bad = Some("state:root differs from live child".into());
                             break;
                         }
                     }
                     Err(e) => {
                         let d = format!("{e:?}");
-                        bad = Some(format!("seek #{i} to {t} fails: {}", d.split(' ').next().unwrap_or("")));
+                        bad = Some(format!("error:{}: seek #{i} to {t}", d.split(|c| c == ' ' || c == '(' || c == '{').next().unwrap_or("")));
                         break;
                     }
                 }
@@ -1039,11 +1102,7 @@ fn diverge(
                 out.c("backward_seeks", 1);
             }
             if let Some(what) = bad {
-                let cls = if what.contains("fails") {
-                    what.split(": ").nth(1).unwrap_or("error").to_string()
-                } else {
-                    "state".into()
-                };
+                let cls = what.split(|c| c == ' ' || c == ':').take(2).collect::<Vec<_>>().join(":");
                 out.violations.push((
                     format!("c07:diverged-child:seek on a child that diverged after the fork:{cls}"),
                     case(json!({"seeks": [a, b], "what": what})),
